@@ -67,7 +67,7 @@ def judge_case(prog, ctx, detail, mode, scratch) -> Tuple[Optional[Tuple[str, st
     if ref.status != real.status or ref.error != real.error or (ref.status == "fail" and ref.index != real.index):
         return ("traced-run-outcome-differs-from-reference",
                 f"reference {ref.status} {ref.error}@{ref.index}; traced run {real.status} {real.error}@{real.index}: {real.exc!r}"), info
-    if ref.error in ("ValueError", "RuntimeError"):
+    if ref.error in ("ValueError", "RuntimeError") and ref.reason == "deliberate":
         from verif_lib.components import EMPTY_ERROR, THE_ERROR
 
         if real.exc is not (THE_ERROR if ref.error == "ValueError" else EMPTY_ERROR):
